@@ -36,9 +36,9 @@ type suiteObs struct {
 	Form     string    `json:"form"`  // client form derived from the request
 	Codec    string    `json:"codec"` // client codec
 	Path     string    `json:"path"`
-	ReqErr   bool      `json:"reqerr"`   // the client's body ended with a read error
-	Family   bool      `json:"family"`   // the response's content type belongs to the client's protocol
-	Skipped  string    `json:"skipped"`  // reason this exchange is not judged ("" = judged)
+	ReqErr   bool      `json:"reqerr"`  // the client's body ended with a read error
+	Family   bool      `json:"family"`  // the response's content type belongs to the client's protocol
+	Skipped  string    `json:"skipped"` // reason this exchange is not judged ("" = judged)
 	Cl       clientObs `json:"cl"`
 	Panicked bool      `json:"panicked"`
 }
